@@ -12,10 +12,14 @@
    parameters each holding a whole-value reference to another parameter of the set (cycles of
    any length, several cycles, chains leading into a cycle) every parameter renders, from some
    fuel on, to an error that is the reference-loop error or the depth-limit error -- never to a
-   value.  PARTIAL: the same for cycles that pass through embedded references, containers,
-   layers or nested paths is covered by the cyclic streams of the check on every run and by the
-   boundary evaluations below, not by a theorem. *)
-From RV Require Import Model.Interp Proofs.WfFacts Proofs.StateFacts Proofs.StateIndep Proofs.Mono Proofs.NoPanic Proofs.Termination Proofs.CycleFacts.
+   value.  For every other placement (C08_no_placement_of_a_cycle_yields_a_value): if every
+   parameter of a set forces a reference into the set -- as its whole value, embedded in text,
+   or either of them inside a list, a mapping or a layer of a multiply-defined value, at any
+   depth -- then each of them, and anything that forces one of them, renders to an error from
+   some fuel on, never to a value (which error depends on what else the value holds).
+   PARTIAL: cycles that pass through multi-segment or nested paths (${a:b}, ${${p}}) are covered
+   by the cyclic streams of the check on every run, not by a theorem. *)
+From RV Require Import Model.Interp Proofs.WfFacts Proofs.StateFacts Proofs.StateIndep Proofs.Mono Proofs.NoPanic Proofs.Termination Proofs.CycleFacts Proofs.CycleGeneral.
 
 (** The depth error is raised exactly at nesting depth 64 (documented limit), whatever the
     reference refers to ... *)
@@ -112,6 +116,34 @@ Proof.
     + repeat constructor.
     + repeat constructor.
   - intros k [<-|[<-|[<-|[<-|[]]]]]; (split; [cbn; tauto | split; [reflexivity | split; reflexivity]]).
+Qed.
+
+(** No placement of a cycle yields a value.  [forces root ks v]: rendering [v] to a value needs
+    a reference ${k}, k in [ks], rendered -- as the whole value, embedded in text, or inside a
+    list, a mapping or a layer, at any depth.  If every parameter of the set forces a reference
+    into the set, whatever forces one of them renders to one and the same error from some fuel
+    on: never a value, never a panic, never without end. *)
+Theorem C08_no_placement_of_a_cycle_yields_a_value :
+  forall root, wf (VMap root) ->
+  forall ks,
+    (forall k, In k ks -> split_on ":" k = [k] /\ exists v0, m_get (VStr k) root = Some v0 /\ forces ks v0) ->
+  forall v st, wf v -> forces ks v ->
+    exists F0 e, forall F, F0 <= F -> interp F root v st = Err e.
+Proof. intros root Hw ks Hc v st Hv Hf. exact (forcing_a_cycle_is_an_error root Hw ks Hc v st Hv Hf). Qed.
+Eval cbv in "ASSUMPTIONS-OF C08_no_placement_of_a_cycle_yields_a_value"%string. Print Assumptions C08_no_placement_of_a_cycle_yields_a_value.
+
+(** non-vacuity: a cycle through an embedded reference, a list element and a mapping value *)
+Example C08_general_cycle_hypotheses_hold :
+  let root := [ mk_entry (VStr "a") (VStr "x${b}") false false;
+                mk_entry (VStr "b") (VSeq [VNum (NInt 1); VStr "${c}"]) false false;
+                mk_entry (VStr "c") (VMap [mk_entry (VStr "m") (VStr "${a}") false false]) false false ] in
+  forall k, In k ["a"; "b"; "c"] ->
+    split_on ":" k = [k] /\ exists v0, m_get (VStr k) root = Some v0 /\ forces ["a"; "b"; "c"] v0.
+Proof.
+  cbn zeta. intros k [<-|[<-|[<-|[]]]]; (split; [reflexivity|]); eexists; (split; [reflexivity|]).
+  - cbn [forces]. eexists. split; [vm_compute; reflexivity|]. apply Exists_cons_tl, Exists_cons_hd. cbn. tauto.
+  - cbn [forces]. right. left. eexists. split; [vm_compute; reflexivity|]. cbn. tauto.
+  - cbn [forces]. left. eexists. split; [vm_compute; reflexivity|]. cbn. tauto.
 Qed.
 
 (** Boundary evaluations on the model (kernel computations, instances -- not the general claim):
